@@ -611,6 +611,7 @@ func componentCaseWellFormed(c *Case) (*WF, string) {
 		w.Sources[w.Ghost] = "source " + w.Ghost + "\n"
 		w.Ghost = ""
 	}
+	w.Rounds = nil // (no second round inside the program: the reference describes one run)
 	return w, kind
 }
 
